@@ -144,7 +144,7 @@ def case(ck, i):
     dom = mr.input_domain(I, prog)
     if F.domain is not dom:
         ck.note(desc, nontrivial=False, klass=klass)
-        ck.violation("domain:" + prog["nodes"][-1][0], "operator domain is not the union of its "
+        ck.violation("domain:" + mr.first_wrong_domain(I, prog, ops), "operator domain is not the union of its "
                      "parts' domains (C03 mechanism)")
         return
     rep0 = repr(F)
